@@ -104,9 +104,9 @@ def padWidth (clusters : String → List String) (v : Verb) (fmted : String) : S
       let pads := String.ofList (List.replicate (v.width - given) (if v.zero then '0' else ' '))
       if v.minus then fmted ++ pads else pads ++ fmted
 
-/-- the precision loop of `formatAppendString`: at most `prec` clusters (only when `prec > 0`) -/
+/-- the precision loop of `formatAppendString` (`if verb.HasPrec`): at most `prec` clusters -/
 def precCut (clusters : String → List String) (v : Verb) (str : String) : String :=
-  if v.hasPrec && v.prec > 0 then String.join ((clusters str).take v.prec) else str
+  if v.hasPrec then String.join ((clusters str).take v.prec) else str
 
 /-- `formatAppend`: the text to append -/
 def formatAppend (L : Lib) (v : Verb) (args : List Value) : Res String :=
